@@ -64,8 +64,14 @@ def run(run):
 def flows_to_return(sp, site, st):
     body = site.body
     tr = tracer_of(body)
-    E = tr.norm(tr.rvalue(st["rv"]))
+    helper = "E" in st
+    E = st["E"] if helper else tr.norm(tr.rvalue(st["rv"]))
     ret = norm_try(tr, tr.local(0))
+    if helper and st.get("wrapped_err"):
+        # the helper already returns Err(..): its call result must reach the return value
+        if any(strip_wrappers(t) == E for t in subterms(ret)):
+            return True, ""
+        return False, "the error built by the helper does not reach the return value"
     if body.def_kind == "Closure" and not body.is_coroutine:
         if strip_wrappers(ret) != E:
             return False, "the closure does not return the constructed error"
@@ -169,8 +175,9 @@ def pairing(run, f, sp):
 
 
 def record_fn(run, f):
-    d = "dead_letter::record"
-    body = f.body(d)
+    import anchors
+    d = anchors.record_def(f)
+    body = f.body(d) if d else None
     if not run.require(body is not None, "O13.5", "record-present", "dead_letter::record not found", "found"):
         return
     run.count_body(body)
